@@ -50,9 +50,19 @@ def build_arg(a, depth=0):
 
 
 def build_leaf(t):
+    if SHARE is not None:
+        # under sharing(), structurally equal leaves are ONE object (as a user re-using a
+        # condition object in several parts / rules does)
+        from .terms import dumps
+        key = ("leaf", dumps(t))
+        if key in SHARE:
+            return SHARE[key]
     args = tuple(build_arg(a) for a in t.args)
     kwargs = {k: build_arg(v) for k, v in t.kwargs.items()}
-    return getattr(leaf_cls(t), t.name)(*args, **kwargs)
+    obj = getattr(leaf_cls(t), t.name)(*args, **kwargs)
+    if SHARE is not None:
+        SHARE[key] = obj
+    return obj
 
 
 def build_cond(t):
